@@ -1,7 +1,7 @@
 #!/bin/bash
 # tools/sweepseeds.sh <out-file> [parallel]   - re-runs every seeded change against the checks it was ever run against
 # (from .work/seedmut*.txt) on the current /repo HEAD; output lines in the format tools/seedreport.py reads.
-out="$1"; par="${2:-3}"
+out="$1"; par="${2:-3}"; export SWEEP_ONLY="${3:-.}"   # 3rd arg: regex of checks to include
 cd /verif
 python3 - > /tmp/sweep-list.txt <<'PY'
 import glob,re,os
@@ -13,7 +13,9 @@ for f in glob.glob('/verif/.work/seedmut*.txt'):
 for d in sorted(glob.glob('/verif/seeded/C*-*')):
     sid=os.path.basename(d)
     prop=re.match(r'(C\d+)',sid).group(1)
-    checks=sorted(runs.get(sid,set())|{prop})
+    import os as _os
+    checks=[c for c in sorted(runs.get(sid,set())|{prop}) if re.fullmatch(_os.environ.get('SWEEP_ONLY','.*') if _os.environ.get('SWEEP_ONLY','.')!='.' else '.*', c)]
+    if not checks: continue
     patch=d+'/patch.rebased.diff' if os.path.exists(d+'/patch.rebased.diff') else d+'/patch.diff'
     print(sid,patch,' '.join(checks))
 PY
